@@ -51,13 +51,13 @@ SETS = {
     # scalar with every frame, colour with the dyadic frame
     # (+ with the dyadic frame: a base image whose float data came from uint8 data through the public
     # img_as(float), and one that was used at another origin before it got the frame's origin)
-    "std": lambda frame: [(False, o) for o in OVERLAPS] + ([(True, o) for o in OVERLAPS] + [(k, o) for k in ("converted", "moved", "nonfinite") for o in (0, 0.25)] if frame == "dyadic" else []),
+    "std": lambda frame: [(False, o) for o in OVERLAPS] + ([(True, o) for o in OVERLAPS] + [(k, o) for k in ("converted", "moved", "nonfinite", "zero-bands") for o in (0, 0.25)] if frame == "dyadic" else []),
     # scalar x {unit, default, nondyadic} x overlap {0, 0.25}; colour x dyadic x overlap {0.1, 0.5}
     "wide": lambda frame: [(True, 0.1), (True, 0.5)] if frame == "dyadic" else [(False, 0.0), (False, 0.25)],
 }
 
 RULE = (
-    "shape (H, W) x patch counts (n0, n1) in 1..6 squared x relative overlap {0, 0.1, 0.25, 0.5} x payload {scalar float64, colour uint16 x3, scalar converted from uint8 by img_as(float), scalar image moved to its origin after use, scalar image with +-inf voxels} x frame "
+    "shape (H, W) x patch counts (n0, n1) in 1..6 squared x relative overlap {0, 0.1, 0.25, 0.5} x payload {scalar float64, colour uint16 x3, scalar converted from uint8 by img_as(float), scalar image moved to its origin after use, scalar image with +-inf voxels, scalar image with all-zero bands} x frame "
     "{unit voxel, dyadic anisotropic voxel + user origin, Image default dimensions [1,1], non-dyadic voxel + far origin}. Every shape with "
     "1 <= H, W <= 12: all 36 count pairs, all overlaps, scalar x every frame and colour x dyadic frame (thorough: complete payload x frame product). "
     "Extents 13..40: quick = shapes (1,H), (H,1), (H,H) with counts (1,k), (k,1), (k,k), k = 1..6; thorough = every shape up to 40x40 with all 36 count "
@@ -138,6 +138,12 @@ def _base(shape, frame, colour):
         data = (np.arange(h * w * 3, dtype=np.uint16) + 1).reshape(h, w, 3)
     elif kind == "converted":
         data = ((np.arange(h * w) % 251) + 1).astype(np.uint8).reshape(h, w)
+    elif kind == "zero-bands":
+        # data that vanish on whole bands of rows / columns (masks, black margins): the first half of the
+        # rows and the last third of the columns are zero
+        data = (np.arange(h * w, dtype=float) + 1.0).reshape(h, w)
+        data[: max(h // 2, 1), :] = 0.0
+        data[:, w - max(w // 3, 1) :] = 0.0
     elif kind == "nonfinite":
         # float data with +inf / -inf voxels spread over the image (every third / fifth voxel), so that
         # some lie in overlap regions for every patch layout
@@ -295,6 +301,22 @@ def _one(r, shape, n, frame, colour, ov):
     except (AssertionError, ValueError) as e:
         r.fail(vcell("assemble"), "assemble() reproduces the base array", exception=repr(e), **detail)
     r.check(np.array_equal(base.img, pristine), vcell("base-untouched"), "building and assembling leave the base array as it was", **detail)
+    # ---- assembling is an observation, not an operation on the patches: afterwards every patch is still
+    # the sub-image at its roi, and assembling again gives the image again
+    try:
+        bad_after = None
+        for pi2 in range(n0):
+            for pj2 in range(n1):
+                rs_, cs_ = P.rois[pi2][pj2]
+                wantp = pristine[rs_, cs_]
+                gotp = np.asarray(P(pi2, pj2).img)
+                if gotp.shape != wantp.shape or not np.array_equal(gotp, wantp):
+                    bad_after = bad_after or [pi2, pj2, list(gotp.shape), list(wantp.shape)]
+        r.check(bad_after is None, vcell("patch-data-after-assemble"), "after assemble() every patch is still the base array at its roi", first=bad_after, **detail)
+        again = P.assemble()
+        r.check(again.img.shape == pristine.shape and np.array_equal(again.img, pristine), vcell("assemble-twice"), "a second assemble() reproduces the base array as the first did", got_shape=list(again.img.shape), **detail)
+    except (AssertionError, ValueError, IndexError) as e:
+        r.fail(vcell("assemble-twice"), "patches can be inspected and assembled again after assemble()", exception=repr(e), **detail)
 
     # ---- call history on the same object: one patch is replaced (set_image), then the image is
     # assembled again.  Interiors still tile the image: exactly the interior of that patch changes.
